@@ -873,7 +873,7 @@ def check_slice_get_keeps_position(P, ctx):
     for (start, stop, step) in ((0, 3, 1), (2, 6, 1), (1, 7, 2), (0, 6, -1), (2, 8, -2)):
         n = len(range(start, stop, abs(step)))
         for pos in range(start, stop):
-            for k in range(-n, n):
+            for k in list(range(-n, n)) + [-n - 1, -n - 4, n, n + 3]:
                 atoms = {('global', 'NULL'): 0, ('global', 'Terminal'): 7777,
                          ('elem', 'self', 0, 'iter'): 7100, ('elem', 'self', 0, 'range'): ('ep', 'range', 0),
                          ('elem', 'range', 0, 'value'): ('ep', 'rval', 0), ('elem', 'range', 0, 'start'): start, ('elem', 'range', 0, 'stop'): stop,
@@ -907,6 +907,12 @@ def check_slice_get_keeps_position(P, ctx):
                 after = atoms[('elem', 'rval', 0, 'val')]
                 if after != pos:
                     bad = bad or 'slice %d:%d:%d with the walk at underlying index %d: after get(%d) the walk stands at %s' % (start, stop, step, pos, k, after)
+                if not -n <= k < n:
+                    # an index outside the slice is refused, whatever the underlying container holds there
+                    if not (r[0] == 'term' and r[1] == ('throw', 'IndexOutOfBoundsError')):
+                        bad = bad or 'slice %d:%d:%d (%d items): get(%d) %s, IndexOutOfBoundsError expected' % (
+                            start, stop, step, n, k, ('reads the underlying item %s' % (r[1] - 100000 if isinstance(r[1], int) else r[1],)) if r[0] == 'ret' else 'raises %s' % (r[1],))
+                    continue
                 if r[0] == 'ret':
                     kk = k + n if k < 0 else k
                     want = 100000 + (start + step * kk if step > 0 else stop - 1 + step * kk)
